@@ -205,6 +205,48 @@ def memory_tags_case(args):
         sc.close()
 
 
+TRICKY = ["R\\u0026D", "a\\u003cb\\u003e", "x&y<z>", "back\\\\slash\\", 'q"uo"te', "tab\\tx \\n", "caf\u00e9 \u2603".encode("utf-8").decode("latin-1"), "\\u0026\\u0026", "50% &amp; <b>", "\\\\u003c"]
+
+
+def escape_case(args):
+    """values that look like JSON escapes (a literal back-slash followed by u0026 / u003c / u003e), HTML-sensitive characters,
+    quotes, back-slashes, non-ASCII text in a parameter and hence in the command: the audit file next to the output is valid
+    JSON and records exactly the command that was executed and the parameter value; so does the record embedded downstream"""
+    seed, i = args
+    rng = random.Random(seed * 393342739 + i)
+    val = TRICKY[i % len(TRICKY)] + rng.choice(["", " end", "\\u0026"])
+    sp = t3.Spec(maxtasks=2, bufsize=128)
+    say = sp.proc(t3.RawProc("say", "printf '%s\\n' '{p:msg}' > {o:out}", ins=[], pars=[("msg", ("V", [val]))], outs=[("out", "say.txt")]))
+    sp.proc(t3.RawProc("next", "cat {i:in} > {o:out}", ins=[("in", [(say, "out")])], outs=[("out", "{i:in}.next")]))
+    val_u = val.encode("latin-1").decode("utf-8")      # the spec transports bytes as latin-1
+    want_cmd = "printf '%s\\n' '" + val_u + "' > say.txt"
+    sc = t3.Scratch()
+    try:
+        sc.plant(sp.files)
+        impl = t3.run_impl(sc, sp, timeout=30)
+        problems = []
+        if impl["rc"] != 0:
+            problems.append(("unexpected-failure", impl["stderr"][-200:]))
+        else:
+            for path, pick in (("say.txt.audit.json", lambda r: r), ("say.txt.next.audit.json", lambda r: (r.get("Upstream") or {}).get("say.txt"))):
+                v = impl["fs"].get(path)
+                if not v or v[0] != "f":
+                    problems.append(("audit-missing", "no audit file %s" % path)); continue
+                try:
+                    rec = pick(json.loads(v[1].encode("latin-1").decode("utf-8")))
+                except ValueError as e:
+                    problems.append(("audit-invalid-json", "%s is not valid JSON (%s) for the parameter value %r" % (path, e, val))); continue
+                if rec is None:
+                    problems.append(("upstream-missing", "%s has no Upstream record for say.txt" % path)); continue
+                if rec.get("Command") != want_cmd:
+                    problems.append(("audit-command", "%s records the command %r, executed was %r" % (path, rec.get("Command"), want_cmd)))
+                if (rec.get("Params") or {}).get("msg") != val_u:
+                    problems.append(("audit-params", "%s records msg=%r, the value was %r" % (path, (rec.get("Params") or {}).get("msg"), val_u)))
+        return {"spec": sp.text(), "bufsize": sp.bufsize, "problems": problems[:3], "known": [], "joined": False, "records": 2, "ntasks": 2, "rc": impl["rc"], "stderr": impl["stderr"][-200:], "yield": None, "wall": impl["wall"], "shape": 10}
+    finally:
+        sc.close()
+
+
 def run(rep, tier, seed):
     proved = vlib.prove(rep, MODULE, THEOREMS)
     ok, msg = vlib.build_ocaml()
@@ -222,6 +264,7 @@ def run(rep, tier, seed):
             ccases += [((sp, m), pt) for pt in pts]
     results += t3.run_many(crash_case, ccases)
     results += t3.run_many(memory_tags_case, [(seed, i) for i in range(n // 8)])
+    results += t3.run_many(escape_case, [(seed, i) for i in range(n // 4)])
     kf = vlib.known_findings("C10")
     for r in results:
         for kind, path, up, k in r["known"]:
